@@ -178,8 +178,19 @@ const URI_CHAR *g_tr_ret[TRMAX];
 # define MI_ParseOwnHostUserInfo (MU(userInfo.first) == MOLD(userInfo.first) || MU(userInfo.first) == NULL)
 # define MI_ParseOwnHostUserInfoNz (MU(userInfo.first) == MOLD(userInfo.first) || MU(userInfo.first) == NULL)
 # define MI_ParseOwnPortUserInfo (MU(userInfo.first) == MOLD(userInfo.first) || MU(userInfo.first) == NULL)
+/* the rules behind a decided user info / inside the host never leave the port start or the host end pointing in front of
+ * their own start: kept, withdrawn (NULL), or recorded at/behind `first` */
+# define MK_FWD(fld) (MU(fld) == MOLD(fld) || MU(fld) == NULL || (__CPROVER_same_object(MU(fld), first) && P_OFF(MU(fld)) >= P_OFF(first)))
+# define MI_FWD (MK_FWD(portText.first) && MK_FWD(hostText.afterLast))
+/* a percent-encoding consumes at least one character */
+# define MI_ParsePctEncoded (P_OFF(__CPROVER_return_value) > P_OFF(first))
+# define MI_ParseOwnUserInfo MI_FWD
+# define MI_ParseOwnHost2 MI_FWD
+# define MI_ParseIpLit2 MI_FWD
+# define MI_ParseIpFuture MI_FWD
+# define MI_ParseIPv6address2 MI_FWD
 /* the host rule keeps the recorded host start or, for a bracketed literal, records the position behind '[' */
-# define MI_ParseOwnHost (MU(hostText.first) == MOLD(hostText.first) || (MK_LA('[') && MK_AT1(MU(hostText.first))))
+# define MI_ParseOwnHost ((MU(hostText.first) == MOLD(hostText.first) || (MK_LA('[') && MK_AT1(MU(hostText.first)))) && MI_FWD)
 /* the query/fragment rules record the range they matched */
 # define MI_ParseUriTailTwo (MU(fragment.first) == MOLD(fragment.first) \
 	? MU(fragment.afterLast) == MOLD(fragment.afterLast) : (MK_AT1(MU(fragment.first)) && MU(fragment.afterLast) == __CPROVER_return_value))
@@ -211,7 +222,11 @@ const URI_CHAR *g_tr_ret[TRMAX];
 	|| (P_OFF(p) == P_OFF(first) + 2 * sizeof(URI_CHAR) && D_F0 + 1 < D_END && D_CH(D_F0 + 1) == _UT('['))))
 # define MK_AFTER_AT (MU(userInfo.afterLast) == first && MK_SAME(userInfo.first) && MK_AT1OR2(MU(hostText.first)))
 # define MP_ParseOwnHostUserInfoNz (!MK_LA('@') || MK_AFTER_AT)
-# define MP_ParseOwnPortUserInfo (!MK_LA('@') || MK_AFTER_AT)
+/* a character that decides "user info, not host:port" (anything consumed that is not a digit): the provisional port
+ * start is withdrawn - afterwards it is absent or a position behind this character, never the stale one in front of it */
+# define MK_DIGIT_LA (D_F0 < D_END && D_CH(D_F0) >= _UT('0') && D_CH(D_F0) <= _UT('9'))
+# define MP_ParseOwnPortUserInfo ((!MK_LA('@') || MK_AFTER_AT) && (MK_DIGIT_LA || __CPROVER_return_value == first \
+	|| MU(portText.first) == NULL || (__CPROVER_same_object(MU(portText.first), first) && P_OFF(MU(portText.first)) > P_OFF(first))))
 # define MP_ParseOwnUserInfo (!MK_LA('@') || MK_AFTER_AT)
 # ifndef MI_ParseAuthority
 #  define MI_ParseAuthority MI_DEFAULT
@@ -650,7 +665,12 @@ static UriBool URI_FUNC(Name)(URI_TYPE(ParserState) *state, const URI_CHAR *firs
 	__CPROVER_assigns(*(state->uri), g_pm_mallocs, g_pm_frees) \
 	__CPROVER_ensures(__CPROVER_return_value == URI_TRUE || __CPROVER_return_value == URI_FALSE) \
 	__CPROVER_ensures(P_INV(state, first)) P_MARKS_ENSURES_BOOL(M_##Name) Extra ;
-P_ONEXIT(OnExitOwnHost2, ) P_ONEXIT(OnExitOwnHostUserInfo, P_ONEXIT_UF_EXTRA) P_ONEXIT(OnExitOwnPortUserInfo, P_ONEXIT_UF_EXTRA)
+#ifdef P_MARKS   /* the host ends where the helper is called (asserted on the real helper in OnExitHost.*.H) */
+# define P_ONEXIT_HA_EXTRA __CPROVER_ensures(state->uri->hostText.afterLast == first)
+#else
+# define P_ONEXIT_HA_EXTRA
+#endif
+P_ONEXIT(OnExitOwnHost2, P_ONEXIT_HA_EXTRA) P_ONEXIT(OnExitOwnHostUserInfo, P_ONEXIT_UF_EXTRA) P_ONEXIT(OnExitOwnPortUserInfo, P_ONEXIT_UF_EXTRA)
 #ifdef P_MARKS   /* "not a scheme": the provisional scheme start is withdrawn (asserted on the real helper in OnExitSegment.*.H) */
 # define P_ONEXIT_SEG_EXTRA __CPROVER_ensures(__CPROVER_return_value == URI_TRUE ==> state->uri->scheme.first == NULL)
 #else
